@@ -47,6 +47,22 @@ def check(run, model, tier):
     hps = set()
     for reg, th in w.threads.items():
         hps.update(th['handle_arg'])
+    if len(hps) == 0:
+        # the helper does not receive the stored handle: whether a thread of that kind is already running must then be settled in start(), per handle, before each call
+        from sa.boolflow import values_at as _va
+        gs_ = cfg_of(w.start)
+        for reg, th in sorted(w.threads.items()):
+            hattr = '%s.%s' % (w.start.params[0], th['handle'])
+            cn = [n for n in gs_.nodes if n.kind not in ('entry', 'exit', 'xexit', 'def') and any(x is th['call'] for x in n.walk())]
+            kn, ka = '%s is None' % hattr, '%s.is_alive()' % hattr
+            vals = _va(gs_, cn[0], {kn, ka}, fnode=w.start.node, params=w.start.params) if cn else []
+            ok = bool(vals) and all(v.get(kn) is True or v.get(ka) is False for v in vals)
+            run.inst('ORDER.start', w.start, 'a %s thread is created only when no live thread is stored' % th['handle'], ok,
+                     '' if ok else ('start() creates a new delivery thread for %s without first establishing that this handle is None or dead (a test on the conjunction of both '
+                                    'kinds says nothing when exactly one thread has died): the surviving kind gets a second thread, its old handle is overwritten and stop() '
+                                    'no longer reaches it' % th['handle']), node=th['call'], obligation=True)
+        run.floor('delivery threads created by start()', len(w.threads), 2)
+        return
     if len(hps) != 1:
         raise AnalysisError('thread helper: handle parameter not identified')
     hp = hps.pop()
